@@ -216,9 +216,11 @@ Proof.
   unfold files_below. rewrite elem_of_list_omap. split.
   - intros ([p n] & Hin & Hf). apply elem_of_map_to_list in Hin. cbn [fst snd] in Hf.
     destruct n as [c|]; [|discriminate]. destruct (decide (under d p)) as [[k' ->]|]; [|discriminate].
-    injection Hf as <-. rewrite drop_app. eauto.
-  - intros [c Hc]. exists (d ++ k, File c). split; [by apply elem_of_map_to_list|].
-    cbn [fst snd]. rewrite decide_True by apply under_app. by rewrite drop_app.
+    injection Hf as <-. rewrite drop_app. rewrite restrict_under_lookup, decide_True in Hin by apply under_app.
+    eauto.
+  - intros [c Hc]. exists (d ++ k, File c). split.
+    + apply elem_of_map_to_list. by rewrite restrict_under_lookup, decide_True by apply under_app.
+    + cbn [fst snd]. rewrite decide_True by apply under_app. by rewrite drop_app.
 Qed.
 
 Lemma open_store_cells flat dir m root s :
